@@ -1,7 +1,7 @@
 import SdnsVerif.Model.Util
 import SdnsVerif.Model.IPSet
 /-! Line protocol for the `ipset` / `acl` / `views` / `sub` ops of C17. -/
-namespace Driver.IPSet
+namespace Driver.C17
 open SdnsVerif.Model SdnsVerif.Model.IPSet SdnsVerif.Model.Util
 
 structure State where
@@ -75,4 +75,4 @@ def step (st : State) (w : List String) : State × String :=
   | "sub" :: _ => (st, "unmodelled")
   | _ => (st, "bad-op")
 
-end Driver.IPSet
+end Driver.C17
